@@ -1,3 +1,4 @@
+import CatiiModel.Prelude
 /-!
 # Sorted-set kernels (`src/catii/set_operations.pyx`) as index loops with *checked* accesses
 
@@ -15,12 +16,6 @@ inductive Err | oobRead (i len : Nat) | oobWrite (i len : Nat) | value (msg : St
 deriving Repr, DecidableEq
 
 abbrev M := Except Err
-
-instance {ε α} [DecidableEq ε] [DecidableEq α] : DecidableEq (Except ε α)
-  | .ok a, .ok b => if h : a = b then isTrue (by rw [h]) else isFalse (by intro h'; cases h'; exact h rfl)
-  | .error a, .error b => if h : a = b then isTrue (by rw [h]) else isFalse (by intro h'; cases h'; exact h rfl)
-  | .ok _, .error _ => isFalse (by intro h; cases h)
-  | .error _, .ok _ => isFalse (by intro h; cases h)
 
 @[inline] def rd (a : Array Nat) (i : Nat) : M Nat :=
   match a[i]? with
